@@ -44,24 +44,36 @@ def trapzAt (dim a : Nat) (N : Nat) (x f : Nat → Rat) : Rat :=
 
 /-! ### 1-D semi-analytic path -/
 
-/-- one interval of `_from_phi_1D_analytic` (grid already clamped) -/
-def entry1D (n d : Nat) (xc φ : Nat → Rat) (k : Nat) : Rat :=
-  let sk := s (φ k) (φ (k+1)) (xc k) (xc (k+1))
-  entry (c1 (φ k) sk (xc k) n) (c2 sk d n)
-    (betaI (beta1A d n).1 (beta1A d n).2 (xc (k+1))) (betaI (beta1A d n).1 (beta1A d n).2 (xc k))
-    (betaI (beta2A d n).1 (beta2A d n).2 (xc (k+1))) (betaI (beta2A d n).1 (beta2A d n).2 (xc k))
+/-- the copy of a grid array a statement reads: the clamped copy (`clamped = true`) or the array the caller passed.  Which one
+    it is, per statement, is read off the source (`Gen.FromPhi.anGrid*`, `dbGrid*`, table `clampTable`). -/
+def gridCopy (clamped : Bool) (cl : Rat → Rat) (x : Nat → Rat) : Nat → Rat :=
+  fun k => if clamped then cl (x k) else x k
 
-/-- `_from_phi_1D_analytic(n, xx, phi)[d]`, N grid points -/
+/-- one interval of `_from_phi_1D_analytic`, with the grid array each of its four statements reads: `xS` in the slope,
+    `xC` in `c1`, `xB1` / `xB2` in the two `betainc` calls -/
+def entry1Dt (n d : Nat) (xS xC xB1 xB2 φ : Nat → Rat) (k : Nat) : Rat :=
+  let sk := s (φ k) (φ (k+1)) (xS k) (xS (k+1))
+  entry (c1 (φ k) sk (xC k) n) (c2 sk d n)
+    (betaI (beta1A d n).1 (beta1A d n).2 (xB1 (k+1))) (betaI (beta1A d n).1 (beta1A d n).2 (xB1 k))
+    (betaI (beta2A d n).1 (beta2A d n).2 (xB2 (k+1))) (betaI (beta2A d n).1 (beta2A d n).2 (xB2 k))
+
+/-- one interval of `_from_phi_1D_analytic` when every statement reads the same (clamped) grid -/
+def entry1D (n d : Nat) (xc φ : Nat → Rat) (k : Nat) : Rat := entry1Dt n d xc xc xc xc φ k
+
+/-- `_from_phi_1D_analytic(n, xx, phi)[d]`, N grid points: every statement reads the copy of the grid the source makes it read -/
 def fromPhi1D (n N : Nat) (x φ : Nat → Rat) (d : Nat) : Rat :=
-  sumRange (N - 1) (entry1D n d (fun k => clamp (x k)) φ)
+  sumRange (N - 1) (entry1Dt n d (gridCopy anGridS clamp x) (gridCopy anGridC1 clamp x)
+    (gridCopy anGridB1 clamp x) (gridCopy anGridB2 clamp x) φ)
 
 /-! ### `cached_dbeta` and one stage of the linear-algebra versions -/
 
 def dbeta1 (n : Nat) (x : Nat → Rat) (d k : Nat) : Rat :=
-  dbDiff (betaI (db1A d n).1 (db1A d n).2 (dbClamp (x (k+1)))) (betaI (db1A d n).1 (db1A d n).2 (dbClamp (x k)))
+  dbDiff (betaI (db1A d n).1 (db1A d n).2 (gridCopy dbGridB1 dbClamp x (k+1)))
+    (betaI (db1A d n).1 (db1A d n).2 (gridCopy dbGridB1 dbClamp x k))
 
 def dbeta2 (n : Nat) (x : Nat → Rat) (d k : Nat) : Rat :=
-  dbDiff (betaI (db2A d n).1 (db2A d n).2 (dbClamp (x (k+1)))) (betaI (db2A d n).1 (db2A d n).2 (dbClamp (x k)))
+  dbDiff (betaI (db2A d n).1 (db2A d n).2 (gridCopy dbGridB2 dbClamp x (k+1)))
+    (betaI (db2A d n).1 (db2A d n).2 (gridCopy dbGridB2 dbClamp x k))
 
 /-- axis `a` of `_from_phi_{2..5}D_linalg` on one line: `dot(dbeta1[d], c1) + dot(dbeta2[d], s) * scale`
     (slopes and `c1` from the caller's grid, `dbeta` from the clamped one) -/
@@ -192,14 +204,17 @@ def inbOpFast (dim a n P N : Nat) (F : Rat) (het : Bool) (x : Nat → Rat) : Lin
 
 /-- `_from_phi_1D_analytic` with the incomplete-beta values tabulated once per grid point -/
 def fromPhi1DFast (n N : Nat) (x φ : Nat → Rat) : Array Rat :=
-  let xc := fun k => clamp (x k)
-  let b1 := memoTab (n + 1) N fun d k => betaI (beta1A d n).1 (beta1A d n).2 (xc k)
-  let b2 := memoTab (n + 1) N fun d k => betaI (beta2A d n).1 (beta2A d n).2 (xc k)
-  let g1 := tabGetF b1 (n + 1) N fun d k => betaI (beta1A d n).1 (beta1A d n).2 (xc k)
-  let g2 := tabGetF b2 (n + 1) N fun d k => betaI (beta2A d n).1 (beta2A d n).2 (xc k)
+  let xS := gridCopy anGridS clamp x
+  let xC := gridCopy anGridC1 clamp x
+  let xB1 := gridCopy anGridB1 clamp x
+  let xB2 := gridCopy anGridB2 clamp x
+  let b1 := memoTab (n + 1) N fun d k => betaI (beta1A d n).1 (beta1A d n).2 (xB1 k)
+  let b2 := memoTab (n + 1) N fun d k => betaI (beta2A d n).1 (beta2A d n).2 (xB2 k)
+  let g1 := tabGetF b1 (n + 1) N fun d k => betaI (beta1A d n).1 (beta1A d n).2 (xB1 k)
+  let g2 := tabGetF b2 (n + 1) N fun d k => betaI (beta2A d n).1 (beta2A d n).2 (xB2 k)
   Array.ofFn (n := dCount n) fun d => sumRange (N - 1) fun k =>
-    let sk := s (φ k) (φ (k+1)) (xc k) (xc (k+1))
-    entry (c1 (φ k) sk (xc k) n) (c2 sk d.val n) (g1 d.val (k+1)) (g1 d.val k) (g2 d.val (k+1)) (g2 d.val k)
+    let sk := s (φ k) (φ (k+1)) (xS k) (xS (k+1))
+    entry (c1 (φ k) sk (xC k) n) (c2 sk d.val n) (g1 d.val (k+1)) (g1 d.val k) (g2 d.val (k+1)) (g2 d.val k)
 
 /-! ### admixture-proportion path -/
 
@@ -322,11 +337,9 @@ def fromPhi (het : String) (force : Bool) (ns : List Nat) (grids : List (Array R
       | .error e => .error e
       | .ok R => .ok (f, (grids.getD 0 #[]).getD 1 0, R)
 
-/-- `Spectrum.from_phi_inbreeding` -/
-def fromPhiInb (het : String) (force : Bool) (ns : List Nat) (grids : List (Array Rat)) (p : Option ND)
+/-- `Spectrum.from_phi_inbreeding` after the delegation test: guards, `Fs` clamp, dispatch on `phi.ndim` -/
+def fromPhiInbMain (het : String) (ns : List Nat) (grids : List (Array Rat)) (p : Option ND)
     (Fs : List Rat) (ploidys : List Nat) (T : ND) : Except String (String × Rat × ND) :=
-  if Fs.all (· == 0) then fromPhi het force ns grids p T
-  else
     let d := T.shape.length
     if p.isSome ∧ !(admixRowsOk (p.getD ⟨[], #[]⟩)) then .error "ValueError:admix-rows"
     else if ¬ (d = ns.length ∧ ns.length = grids.length ∧ grids.length = Fs.length ∧ Fs.length = ploidys.length) then
@@ -341,6 +354,13 @@ def fromPhiInb (het : String) (force : Bool) (ns : List Nat) (grids : List (Arra
         else if (List.range d).any (fun a => ns.getD a 0 % ploidys.getD a 1 ≠ 0) then .error "ValueError:ploidy"
         else
           .ok (f, (grids.getD 0 #[]).getD 1 0, sampleFast (inbOpsFast het ns grids Fs ploidys) T)
+
+/-- `Spectrum.from_phi_inbreeding`: when the delegation test read off the source (`Gen.FromPhi.inbDelegates`) holds the whole
+    call is handed to `from_phi` with the same options, otherwise the inbreeding functions integrate -/
+def fromPhiInb (het : String) (force : Bool) (ns : List Nat) (grids : List (Array Rat)) (p : Option ND)
+    (Fs : List Rat) (ploidys : List Nat) (T : ND) : Except String (String × Rat × ND) :=
+  if inbDelegates Fs then fromPhi het force ns grids p T
+  else fromPhiInbMain het ns grids p Fs ploidys T
 
 /-! ### `Spectrum.marginalize` (populations summed out of a sampled spectrum) -/
 
